@@ -28,7 +28,13 @@ FLT_CONV = "fFeEgGaA"
 def prepare(tier):
     # two compilers: what a too-narrow vararg looks like to printf depends on the code generator (clang at -O1 often
     # leaves the upper half of the register intact, gcc -O0 zero-extends), so every case runs under one of both
-    return {"ex_vm": build.executor("asan", "ex_vm"), "ex_vm_plain": build.executor("plain", "ex_vm")}
+    return {"ex_vm": build.executor("asan", "ex_vm"), "ex_vm_plain": build.executor("plain", "ex_vm"),
+            "fz_fmt": build.executor("fuzz", "fz_fmt", extra_ldflags=["-fsanitize=fuzzer"])}
+
+
+# coverage-guided companion (libFuzzer, ASan): bytes -> (prefix, position, format pieces, arguments); the target compares
+# print_to with snprintf per conversion and round-trips every argument through show/look (see harness/fz_fmt.c)
+FUZZ = [{"target": "fz_fmt", "runs": {"quick": 60000, "thorough": 20000000}, "max_len": 256}]
 
 
 def _flags(allowed):
